@@ -11,7 +11,7 @@ LAYOUT_ACTIONS = ["OriginDirective", "TtlDirective", "IncludeDirective",
 
 META = {
     "category": "model_checking",
-    "text": "ZoneFile.tla transcribes the reader as a tokenizer machine (one step per octet, one branch per character class, parenthesis depth, comments, quotes, escapes) feeding an entry machine (origin, last owner, last TTL, $TTL, last class; $ORIGIN/$TTL/$INCLUDE, explicit/@/inherited owner, TTL-class orders, TXT/NS/CNAME/PTR/DNAME/MX/HINFO and RFC 3597 generic data). TLC checks on it, for every string over ten character classes up to length 5 (quick) / 6 (thorough) in two contexts, that the reader is total, never panics, keeps parentheses non-negative, never writes past its read cursor, treats end of input inside a token as an error and keeps errors sticky; and, for every logical file of up to 2 / 3 entries over a dictionary and every layout (owner absolute / relative / @ / inherited, TTL and class written or inherited, order, spacing, CRLF, parenthesised continuation, comments, blank lines, plain / escaped / quoted tokens), that the reader returns exactly the logical records; and, for strings / labels / names just below, at and above their length limits (255 / 63 / 255 octets) in nine spellings (plain, quoted, one \\DDD or \\c escape at the start, middle, end), that every spelling gives the same limit-respecting outcome. Every explored string and every (file, layout) is replayed into zonefile::inplace::Zonefile with the full expected entry list; recorded runs on random octets, token soup and mutated test-data zone files (panic / hang watch on all, outcome validated by TLC for short ones) and pairs of random renderings of random logical files are validated by TLC against the machines; about 400 hostile-size inputs per trace (name tokens of 300 ... 140000 octets in four label shapes and six positions, 1 MiB strings, lines, hex / Base64 / Base32 blobs, 100-digit integers, 10^5 nested parentheses) must end in entries or an error, never a panic or a hang.",
+    "text": "ZoneFile.tla transcribes the reader as a tokenizer machine (one step per octet, one branch per character class, parenthesis depth, comments, quotes, escapes) feeding an entry machine (origin, last owner, last TTL, $TTL, last class; $ORIGIN/$TTL/$INCLUDE, explicit/@/inherited owner, TTL-class orders, TXT/NS/CNAME/PTR/DNAME/MX/HINFO and RFC 3597 generic data). TLC checks on it, for every string over ten character classes up to length 5 (quick) / 6 (thorough) in two contexts, that the reader is total, never panics, keeps parentheses non-negative, never writes past its read cursor, treats end of input inside a token as an error and keeps errors sticky; and, for every logical file of up to 2 / 3 entries over a dictionary and every layout (owner absolute / relative / @ / inherited, TTL and class written or inherited, order, spacing, CRLF, parenthesised continuation, comments, blank lines, plain / escaped / quoted tokens), that the reader returns exactly the logical records; and, for strings / labels / names just below, at and above their length limits (255 / 63 / 255 octets) in nine spellings (plain, quoted, one \\DDD or \\c escape at the start, middle, end), that every spelling gives the same limit-respecting outcome; and, for 35 numeric fields (u8 / u16 / u32 / Serial / Ttl / time stamps in both notations in SOA, RRSIG, MX, SRV, NAPTR, DS, DNSKEY, NSEC3, TLSA, CAA data, the TTL column, $TTL, CLASSnnn, TYPEnnn, the \\# length) x the values 0, 1, max-1, max, max+1, max+4, past the multiplication guard, 10*max, max with leading zeros and a 100-digit number, that the outcome is an error or the record with exactly that value. Every explored string and every (file, layout) is replayed into zonefile::inplace::Zonefile with the full expected entry list; recorded runs on random octets, token soup and mutated test-data zone files (panic / hang watch on all, outcome validated by TLC for short ones) and pairs of random renderings of random logical files are validated by TLC against the machines; about 400 hostile-size inputs per trace (name tokens of 300 ... 140000 octets in four label shapes and six positions, 1 MiB strings, lines, hex / Base64 / Base32 blobs, 100-digit integers, 10^5 nested parentheses) must end in entries or an error, never a panic or a hang.",
     "note": "Trusted: TLC, the transcription in ZoneFile.tla, the harness executors, the Rust layout renderer of the recorder. Errors are compared as accept/reject (not message or position). Record types other than TXT, NS, CNAME, PTR, DNAME, MX, HINFO and the generic form, TTL values >= 2^31, UTF-8 in $INCLUDE paths are 'unmodelled': the spec abstains. Inputs beyond the explored lengths are sampled. $INCLUDE is only reported, not resolved. Five defects of the reader are modelled as named deviations (known findings).",
     "technique": "TLA+ spec (ZoneFile.tla) + TLC exhaustive; spec->impl case replay; impl->spec trace validation",
     "design_ref": "DESIGN.md §4 C07",
@@ -59,6 +59,9 @@ def run(ctx):
     # in nine spellings (plain, quoted, \\DDD / \\c at the start, middle, end)
     mclim = ctx.tlc("MC_ZoneLimits", "MC_ZoneLimits", workers=4, label="mc-limits", coverage=False)
     ctx.require_ok(mclim, "MC_ZoneLimits")
+    # integer boundaries: every numeric field kind x 0, 1, max-1, max, max+1, max+4, ...
+    mcint = ctx.tlc("MC_ZoneInts", "MC_ZoneInts", workers=4, label="mc-ints", coverage=False)
+    ctx.require_ok(mcint, "MC_ZoneInts")
     ctx.exhaustive_flags.append(True)
     # documentation of the findings: with the deviations on, the properties fail
     d1 = ctx.tlc("MC_ZoneFile", "MC_ZoneFile_dev", workers=2, label="mc-chars-dev",
@@ -104,6 +107,17 @@ def run(ctx):
     _actions_from_cases(ctx, genlim, limcases)
     ctx.require_actions(genlim, ["txt", "txt2", "hinfo", "label", "rdlabel", "name"])
     ctx.replay_cases("replay_zonefile", limcases, label="limits")
+
+    intcases = os.path.join(ctx.work, "cases-ints.ndjson")
+    genint = ctx.tlc("MC_ZoneInts", "Gen_ZoneInts", workers=4, label="gen-ints",
+                     coverage=False, cases_to=intcases, count=False)
+    ctx.require_ok(genint, "Gen_ZoneInts")
+    _actions_from_cases(ctx, genint, intcases)
+    ctx.require_actions(genint, ["soa-serial", "soa-minimum", "rrsig-origttl", "rrsig-expiration", "mx-preference",
+                                 "srv-port", "naptr-order", "ds-keytag", "dnskey-protocol", "nsec3-iterations",
+                                 "tlsa-usage", "caa-flags", "ttl-column", "dollar-ttl", "class-nnn", "type-nnn",
+                                 "generic-len"])
+    ctx.replay_cases("replay_zonefile", intcases, label="ints")
 
     # 3. I->S ----------------------------------------------------------------
     n_traces = 4 if thorough else 2
